@@ -3,7 +3,7 @@ import numpy as np
 from hypothesis import strategies as st
 
 from vlib import models
-from vlib.harness import Sub
+from vlib.harness import Enumerate, Sub
 
 PROPERTY = "C17"
 RULE = (
@@ -22,6 +22,7 @@ RULE = (
     "a cloud whose unlimited MST has a node with more than k children."
 )
 ASSUMPTIONS = [
+    "a balancing factor outside [0, 1] is outside the statement's range: a clipped factor is judged as such, a loud refusal is accepted",
     "points are in general position (no exact ties between candidate edges); near-ties are detected by the reference and skipped",
     "bf is clipped to [0, 1] as documented",
 ]
@@ -189,7 +190,16 @@ def run_cloud(case, ctx):
             "sort" if sort else "nosort", "exclude-soma" if excl else "include-soma",
             "bf-clipped" if which == "cuntz" and not 0 <= case["bf"] <= 1 else "bf-in-range")
     if which == "cuntz":
-        tr = PointsToCuntzMST(bf=case["bf"], furcations=k, exclude_soma=excl, sort=sort)
+        if 0 <= case["bf"] <= 1:
+            tr = PointsToCuntzMST(bf=case["bf"], furcations=k, exclude_soma=excl, sort=sort)
+        else:
+            # a factor outside [0, 1] is outside the statement's range: clipping it (as the library does) is judged as the
+            # clipped factor, refusing it loudly is not judged
+            try:
+                tr = PointsToCuntzMST(bf=case["bf"], furcations=k, exclude_soma=excl, sort=sort)
+            except Exception:  # noqa
+                ctx.ambiguous("balancing-factor-outside-the-range-refused")
+                return
     elif case.get("legacy_kw"):
         tr = PointsToMST(k_furcations=k, exclude_soma=excl, sort=sort)  # deprecated spelling of the same limit
         ctx.cls("limit-through-deprecated-keyword")
@@ -355,6 +365,19 @@ def wide_strategy(draw, tier):
             "soma": draw(st.sampled_from([None, [0.3, -0.7, 1.1]]))}
 
 
+def wide_cases(tier):
+    import os
+    import random
+
+    rnd = random.Random(int(os.environ.get("VERIF_SEED", "1") or 1) * 7919 + 17)
+    for rep in range(1 if tier == "quick" else 6):
+        for k in (256, 300, 255, 257, 128):
+            for excl in (False, False, True):
+                yield {"n": rnd.randrange(300, 461), "seed": rnd.randrange(2 ** 31 - 1), "clustered": bool(rnd.randrange(2)), "k": k,
+                       "bf": rnd.choice([1.0, 1.0, 0.97]), "exclude_soma": excl, "sort": bool(rnd.randrange(2)),
+                       "soma": rnd.choice([None, [0.3, -0.7, 1.1]])}
+
+
 def run_wide(case, ctx):
     """Balancing factor (near) 1: every point prefers the root, so a limit of some hundreds of children is what shapes the
     tree - the limit has to hold and the greedy has to move on to the next best connected point."""
@@ -399,8 +422,8 @@ def run_wide(case, ctx):
 
 
 SUBCHECKS = [
-    Sub("wide", wide_strategy, run_wide, quick=16, thorough=160, shards_quick=8, shards_thorough=16,
-        required={"limit-binds": 4, "limit:256": 2}),
+    Enumerate("wide", wide_cases, run_wide, shards_quick=8, shards_thorough=16,
+              required={"limit-binds": 4, "limit:256": 2}, exhaustive=False),
     Sub("cloud", cloud_strategy, run_cloud, quick=6000, thorough=40000, shards_quick=8,
         required={"which:mst": 200, "which:cuntz": 400, "limit:-1": 200, "limit:1": 100, "limit:2": 200, "limit:3": 100,
                   "soma-given": 300, "first-point-is-root": 200, "bf-visible": 150, "limit-bites": 100, "plain-mst": 40,
